@@ -3,6 +3,8 @@
 
 #include <yaclib/async/run.hpp>
 #include <yaclib/exe/submit.hpp>
+#include <yaclib_std/condition_variable>
+#include <yaclib_std/mutex>
 
 #include <deque>
 
@@ -697,6 +699,95 @@ VF_CELL(strand_strand_pool, "strand/strand-over-strand-pool", "C07,C05,C03,C04",
 VF_CELL(strand_strand_manual, "strand/strand-over-strand-manual", "C07,C05,C03", 4) {
   StrandCase(ctx, bManual, true);
 }
+
+// round 8: a running job submits a child to the same pool and blocks until the child was Called or Dropped, while a
+// SoftStop is requested at some moment. With >= 2 workers an accepted child must be picked up by an idle worker (the
+// submitter's own worker is busy waiting), so the parent returns, the pool becomes idle and stops by itself.
+// A lost wake-up leaves the child queued for ever: parent and Wait() parked at quiescence (deadlock verdict).
+struct WaitedChild final : yaclib::Job {
+  yaclib_std::mutex* m = nullptr;
+  yaclib_std::condition_variable* cv = nullptr;
+  bool done = false;
+  std::atomic<int> calls{0}, drops{0};
+  void Finish() {
+    std::lock_guard lock{*m};
+    done = true;
+    cv->notify_all();
+  }
+  void Call() noexcept final {
+    calls.fetch_add(1, kRlx);
+    Finish();
+  }
+  void Drop() noexcept final {
+    drops.fetch_add(1, kRlx);
+    Finish();
+  }
+};
+struct WaitingParent final : yaclib::Job {
+  yaclib::IExecutor* pool = nullptr;
+  WaitedChild* child = nullptr;
+  u32 work = 0;
+  std::atomic<int> calls{0}, drops{0}, returned{0};
+  void Call() noexcept final {
+    calls.fetch_add(1, kRlx);
+    Jitter(work);
+    pool->Submit(*child);
+    {
+      std::unique_lock lock{*child->m};
+      while (!child->done) {
+        child->cv->wait(lock);
+      }
+    }
+    returned.fetch_add(1, kRlx);
+  }
+  void Drop() noexcept final {
+    drops.fetch_add(1, kRlx);
+  }
+};
+
+void SoftStopChildAwaitedCase(Ctx& ctx) {
+  int workers = static_cast<int>(ctx.rng.In(2, 4));
+  u32 before_submit = ctx.rng.Below(6), before_stop = ctx.rng.Below(8);
+  int stop_kind = static_cast<int>(ctx.rng.Below(4));  // 0,1 SoftStop, 2 Stop, 3 SoftStop then Stop
+  ctx.Note("pool workers=%d: a running job submits a child and waits for it; %s after %u yields (parent submitted after %u); ", workers,
+           stop_kind <= 1 ? "SoftStop" : stop_kind == 2 ? "Stop" : "SoftStop, then Stop", before_stop, before_submit);
+  yaclib_std::mutex m;
+  yaclib_std::condition_variable cv;
+  WaitedChild child;
+  child.m = &m;
+  child.cv = &cv;
+  WaitingParent parent;
+  parent.child = &child;
+  parent.work = ctx.rng.Below(4);
+  {
+    auto pool = yaclib::MakeFairThreadPool(static_cast<std::uint64_t>(workers));
+    parent.pool = pool.Get();
+    Jitter(before_submit);
+    pool->Submit(parent);
+    Jitter(before_stop);
+    if (stop_kind != 2) {
+      pool->SoftStop();
+    }
+    if (stop_kind >= 2) {
+      pool->Stop();
+    }
+    pool->Wait();
+  }
+  ctx.SetNontrivial(true);
+  int pc = parent.calls.load(kRlx), pd = parent.drops.load(kRlx), cc = child.calls.load(kRlx), cd = child.drops.load(kRlx);
+  ctx.Observe(static_cast<u64>(pc * 8 + pd * 4 + cc * 2 + cd));
+  ctx.Class(cc != 0 ? "child-called" : cd != 0 ? "child-dropped" : "parent-dropped");
+  ctx.Check(pc + pd == 1, "call-xor-drop", "C08,C05", "the parent job was Called %d and Dropped %d times", pc, pd);
+  ctx.Check(pc == 0 || cc + cd == 1, "call-xor-drop", "C08,C05", "the child job submitted by the running parent was Called %d and Dropped %d times", cc, cd);
+  ctx.Check(pc == 0 || parent.returned.load(kRlx) == 1, "awaited-child-runs", "C08", "the parent never saw its child finished");
+  // the parent was accepted before any stop request and is running (or queued) when the child arrives: neither Stop nor
+  // SoftStop may refuse the child of a job that was accepted before them... only HardStop could, and it is not used here
+  if (stop_kind != 2 && stop_kind != 3) {
+    ctx.Check(pc == 0 || cd == 0, "softstop-premature", "C08",
+              "the child submitted from inside the running parent was dropped: SoftStop stopped the pool while a job was running");
+  }
+}
+
 VF_CELL(pool_any, "pool/any", "C08,C05,C03,C04", 30) {
   PoolCase(ctx, 0, -1);
 }
@@ -705,6 +796,9 @@ VF_CELL(pool_one, "pool/one-worker", "C08,C05,C03", 12) {
 }
 VF_CELL(pool_soft, "pool/softstop", "C08,C05,C03", 14) {
   PoolCase(ctx, 0, kSoftStop);
+}
+VF_CELL(pool_child_awaited, "pool/softstop-child-awaited", "C08,C05,C03", 8) {
+  SoftStopChildAwaitedCase(ctx);
 }
 VF_CELL(pool_hard, "pool/hardstop", "C08,C05,C03", 10) {
   PoolCase(ctx, 0, kHardStop);
